@@ -10,14 +10,16 @@ Definition c21_one (c : c21case) : N * (bool * bool) :=
   match c with
   | WhyCase nrel P0 base0 der0 path md answers =>
       let P := norm_program P0 in
-      let base := norm_db base0 in
+      let base_raw := norm_db base0 in          (* what the provenance code is handed *)
+      let base := eff_base P base_raw in        (* the stored facts that belong to their relation *)
       let M := ref_model nrel P base in
       if negb (ref_ok nrel P M) then (0, (false, true))
       else
         let cok := match der0 with Some d => ctx_ok nrel base (norm_db d) M | None => true end in
         if N.eqb path 0 && negb cok then (0, (true, true))   (* the engine's evaluation differs: C01's business *)
         else
-          let cls := if N.eqb path 2 && negates_derived P then 2 else 0 in
+          let cls := if shadowed_facts P base_raw then 3
+                     else if N.eqb path 2 && negates_derived P then 2 else 0 in
           let items :=
             flat_map (fun ra : rel * list (tuple * option ptree) =>
               let r := fst ra in
@@ -35,7 +37,7 @@ Definition c21_one (c : c21case) : N * (bool * bool) :=
                       forallb (fun a : tuple * option ptree =>
                         match snd a with Some tr => ptree_wf tr | None => true end) (snd ra)) answers in
           let '(k, ok) := fold_items items in
-          (k, (cok && wf && chain_corr P base (option_map norm_db der0) path md answers, ok))
+          (k, (cok && wf && chain_corr P base_raw (option_map norm_db der0) path md answers, ok))
   end.
 
 Definition c21_check := run_checker c21_one.
